@@ -320,6 +320,42 @@ func findCmd(args []string) error {
 			os.RemoveAll(base)
 		}
 	}
+	// deep chains (implementation only): a spokfile 30-60 levels above the start directory is still the nearest one
+	if *shard == 0 && hangs < 3 {
+		base := filepath.Join(tmp, "deep")
+		for _, top := range []int{0, 3} {
+			os.RemoveAll(base)
+			dirs := []string{base}
+			for k := 1; k <= 60; k++ {
+				dirs = append(dirs, filepath.Join(dirs[k-1], "n"))
+			}
+			os.MkdirAll(dirs[60], 0o755)
+			os.WriteFile(filepath.Join(dirs[top], "spokfile"), []byte("task deep() {\n}\n"), 0o644)
+			for _, sl := range []int{top + 30, top + 31, top + 32, top + 33, 60} {
+				resCh := make(chan string, 1)
+				go func() {
+					p, err := file.Find(log, dirs[sl], base)
+					if err != nil {
+						resCh <- "N"
+					} else {
+						resCh <- "F " + filepath.Dir(p)
+					}
+				}()
+				res := "HANG"
+				select {
+				case res = <-resCh:
+				case <-time.After(5 * time.Second):
+					hangs++
+				}
+				st.StopKinds["deep-chain(impl only)"]++
+				if want := "F " + dirs[top]; res != want {
+					st.OracleFail["C17"]++
+					fmt.Fprintf(bo, "C17 deep-chain:%d:%d Find from %d levels below the only spokfile (stop at the top of the chain) returned %q, expected the spokfile at level %d\n", top, sl, sl-top, strings.TrimPrefix(res, base), top)
+				}
+			}
+		}
+		os.RemoveAll(base)
+	}
 	bc.Flush()
 	bi.Flush()
 	bo.Flush()
